@@ -395,3 +395,287 @@ Example C01_example :
               [IRR (mkRR [1; 65; 1; 98; 1; 122; 0] 16 1 60 [1; 119])] [] [] None).
 Proof. vm_compute. repeat split; reflexivity. Qed.
 Print Assumptions C01_example.
+
+(* ================================================================ FILE LEVEL: from the text of a data file
+   to the served responses (composition of C09's codec, C07's pipelines, C15's multi-value store reads,
+   C02's reader simulation and C01_response_is_spec).
+
+   Vocabulary (Spec/Declared.v, Proofs/FileLevel.v).
+   [parse_line o serial l] : C09's model of Codec.DecodeLn on one text line ([o]: net.ParseIP & co.).
+   [declared r] : the DNS records a parsed line DECLARES, written from the documented meaning of the 17
+     line types, independently of the compiler model: Z SOA; . SOA + NS + address of x.ns.dom; & NS +
+     address; + A / AAAA by family with weight; = address + PTR; @ MX + address of x.mx.dom; S SRV +
+     address; C CNAME; ^ PTR; ' TXT (strings of <= 127 bytes); : generic; B / H SVCB / HTTPS; % M 8 ! nothing.
+   [declared_file o serial f] : the declared records of all lines of f, in file order.
+   [wf_file o serial f] (decidable): every line parses and passes [dns_okb]: labels of at most 63 bytes,
+     NS targets of at most 255 octets, TTL / weight / type fit their fields, a generic line does not
+     declare A, AAAA or NS, a = line has a parsable address.
+   [conv_line o serial nornet v2] : Codec.ConvertLn = DecodeLn then MarshalMap (Model/Text.convert) - the
+     codec C07's pipelines are instantiated with; [accum], [feature] : Codec.Acc.MarshalMap and
+     Codec.Features.MarshalMap, any functions whose keys are [foreign_keyb] ([side_ok]): the key families
+     \000% \000M \0008 \000\000\000! \000/ \0004 \0006 \000o_features.
+   [rdb_compilation ... f db] (C07): db is the RocksDB database compileBuilder / compileBatches produce for
+     f under SOME sort, bucket parameters, batch size, stream and batch order.  [rdb_dump db st] : the
+     list st enumerates db (every present key once, with the chunks ReadNextChunk yields).
+   [loc_okb L] : L is two bytes other than \000% \000M \0008 \000/ \0004 \0006 \000o (v1 keys only: a
+     name key L ++ name must not fall into a foreign family; see Proofs/FileLevel.v).
+   [response_refines L recs n q ecs max x] : the conclusion of C01_response_is_spec. *)
+From DnsV Require Import Model.Compile Proofs.Batch Proofs.CompilePipe.
+From DnsV Require Model.Text.
+From DnsV Require Import Spec.Declared Proofs.DeclaredLink Proofs.DeclaredWf Proofs.ReadsNames Proofs.SpecPerm Proofs.FileLevel Proofs.FileLevelExample.
+
+(* [response_refines] is literally the conclusion of C01_response_is_spec *)
+Theorem C01_response_refines_meaning : forall L recs n q ecs max x,
+  response_refines L recs n q ecs max x <->
+  (rs_id x = q_id q /\ rs_question x = question_of q /\
+   match spec_response L recs n (q_type q) with
+   | Refused =>
+       rs_rcode x = 5 /\ rs_aa x = false /\ rs_an x = [] /\ rs_ns x = [] /\ rs_ex x = [] /\ rs_opt x = opt_of q ecs
+   | Referral z nsr =>
+       q_type q <> 43 ->
+       rs_rcode x = 0 /\ rs_aa x = false /\ rs_an x = [] /\
+       (exists ord, Permutation ord nsr /\ rs_ns x = map (ns_item (pack z) (q_class q)) ord) /\
+       extras_sound recs L (q_class q) (rs_an x) (rs_ns x) (rs_ex x) /\ rs_opt x = opt_of q ecs
+   | Answer z nx ans soa =>
+       rs_rcode x = (if nx then 3 else 0) /\ rs_aa x = true /\
+       (exists ord, Permutation ord ans /\ rs_an x = answer_items (q_name q) max ord) /\
+       (if item_count (rs_an x) =? 0 then exists r, In r soa /\ rs_ns x = [soa_item (pack z) r] else rs_ns x = []) /\
+       extras_sound recs L (q_class q) (rs_an x) (rs_ns x) (rs_ex x) /\ rs_opt x = opt_of q ecs
+   end).
+Proof. intros. unfold response_refines. tauto. Qed.
+Print Assumptions C01_response_refines_meaning.
+
+(* LINK C09 -> Spec/Rows: for every line type that declares records, the key/value pairs the codec emits
+   for the line are EXACTLY (as a list) the rows Spec/Rows prescribes for its declared records, in the v1
+   and in the v2 key layout ([rows_of v2] = rows_of_v2 / rows_of_v1) *)
+Theorem C01_convert_is_rows_of : forall v2 nornet r, dns_okb r = true -> served r = true ->
+  Model.Text.convert v2 nornet r = rows_of v2 (declared r).
+Proof. exact convert_is_rows_of. Qed.
+Print Assumptions C01_convert_is_rows_of.
+
+(* ... and the other line types (% M 8 !) declare nothing and emit only keys under \000% \000M \0008 \000\000\000! *)
+Theorem C01_unserved_lines : forall v2 nornet r, served r = false ->
+  declared r = [] /\ forallb (fun kv => aux_keyb (fst kv)) (Model.Text.convert v2 nornet r) = true.
+Proof. exact convert_unserved. Qed.
+Print Assumptions C01_unserved_lines.
+
+(* the declared records of a well-formed file satisfy the guards of the C01 / C02 theorems *)
+Theorem C01_declared_wf : forall rs, Forall (fun r => dns_okb r = true) rs ->
+  wf_recs (flat_map declared rs) /\ Forall wf_ns_rdata (flat_map declared rs).
+Proof. exact declared_file_wf. Qed.
+Print Assumptions C01_declared_wf.
+
+(* foreign keys never meet name keys.  v1 layout: for a client location L with [loc_okb L], no key
+   L ++ name or \000\000 ++ name of a wire-valid name is in a foreign family.  v2 layout: the foreign
+   families are foreign in the sense of C02's [v2_store], and no name key \000o ++ reversed name ++ loc is *)
+Theorem C01_foreign_keys_v1 : forall L z, loc_okb L = true -> pname z ->
+  foreign_keyb (L ++ z) = false /\ foreign_keyb (loc0 ++ z) = false.
+Proof. exact probed_not_foreign. Qed.
+Print Assumptions C01_foreign_keys_v1.
+Theorem C01_foreign_keys_v2 : (forall k, foreign_keyb k = true -> Proofs.SeekSkip.foreign k) /\
+  (forall y ly, Proofs.RevOrder.name_ok y -> foreign_keyb (Proofs.RevOrder.bkey y ly) = false).
+Proof. exact (conj foreign_v2 bkey_not_foreign). Qed.
+Print Assumptions C01_foreign_keys_v2.
+
+(* the label-by-label reader consults the store only under L ++ name and \000\000 ++ name for wire-valid
+   packed names: two stores that agree there give the same outcome, whatever else they hold *)
+Theorem C01_v1_reads_name_keys_only : forall b st st' L q n ecs max,
+  b <> RDB2 -> agree_names L st st' ->
+  Proofs.RevOrder.name_ok n -> nlen (pack n) <= 255 -> lower_bytes (q_name q) = pack n ->
+  serve b st q (LocOk L) ecs max = serve b st' q (LocOk L) ecs max.
+Proof. exact serve_v1_reads_names. Qed.
+Print Assumptions C01_v1_reads_name_keys_only.
+
+(* the statement does not depend on the order of the declared records (the compilers keep the rows of a
+   key only as a multiset), and any store holding the rows of every relevant key as a multiset holds
+   them row for row for SOME order of the records *)
+Theorem C01_spec_order_independent : forall L recs recs' n q ecs max x, Permutation recs recs' ->
+  response_refines L recs' n q ecs max x -> response_refines L recs n q ecs max x.
+Proof. exact response_refines_perm. Qed.
+Print Assumptions C01_spec_order_independent.
+Theorem C01_reorder : forall (key : record -> bytes) (Pk : bytes -> bool) (recs : list record) (g : bytes -> list row),
+  (forall k, Pk k = true -> Permutation (g k) (map row_of (filter (fun r => bytes_eqb (key r) k) recs))) ->
+  exists recs', Permutation recs recs' /\
+    forall k, Pk k = true -> g k = map row_of (filter (fun r => bytes_eqb (key r) k) recs').
+Proof. exact reorder. Qed.
+Print Assumptions C01_reorder.
+
+(* pipeline-independent core: ANY store that holds under every key the multiset of values the codec
+   emits for the file ([spec_compile], C07's oracle) serves what the file declares.  v1 reader: *)
+Theorem C01_file_store_v1 : forall o serial nornet accum feature f,
+  wf_file o serial f = true -> side_ok accum feature f ->
+  forall b (st : Model.Store.store) L,
+  (forall k, Permutation (get st k) (spec_compile bytes (conv_line o serial nornet false) accum feature f k)) ->
+  b <> RDB2 -> loc_okb L = true -> wf_view L (declared_file o serial f) = true ->
+  forall q n ecs max x, wf_name n -> nlen (pack n) <= 255 -> lower_bytes (q_name q) = pack n ->
+  (q_edns q = None \/ q_edns q = Some 0) ->
+  serve b st q (LocOk L) ecs max = OReply x -> response_refines L (declared_file o serial f) n q ecs max x.
+Proof. exact file_store_v1. Qed.
+Print Assumptions C01_file_store_v1.
+(* v2 reader (SeekForPrev sees every key: each once, none without values) *)
+Theorem C01_file_store_v2 : forall o serial nornet accum feature f,
+  wf_file o serial f = true -> side_ok accum feature f ->
+  forall (st : Model.Store.store) L,
+  Proofs.Ctx.uniq st -> (forall k v, In (k, v) st -> v <> []) ->
+  (forall k, Permutation (get st k) (spec_compile bytes (conv_line o serial nornet true) accum feature f k)) ->
+  length L = 2%nat -> wf_view L (declared_file o serial f) = true ->
+  forall q n ecs max x, wf_name n -> nlen (pack n) <= 255 -> lower_bytes (q_name q) = pack n ->
+  (q_edns q = None \/ q_edns q = Some 0) ->
+  serve RDB2 st q (LocOk L) ecs max = OReply x -> response_refines L (declared_file o serial f) n q ecs max x.
+Proof. exact file_store_v2. Qed.
+Print Assumptions C01_file_store_v2.
+
+(* every RocksDB compilation has a dump (so the hypothesis [rdb_dump db st] below is satisfiable for
+   every db C07 produces): the enumeration over the keys of the codec's records *)
+Theorem C01_rdb_dump_exists : forall (line : Type) conv accum feature (f : list line) db,
+  feature <> [] -> kvs_ok (records line conv accum feature f) -> rdb_compilation line conv accum feature f db ->
+  rdb_dump db (dump_of_keys db (map fst (records line conv accum feature f))).
+Proof. exact rdb_dump_exists. Qed.
+Print Assumptions C01_rdb_dump_exists.
+
+(* C01_file_level.  For a well-formed data file f, EVERY database the modelled compilers can produce from
+   its text - RocksDB by the builder (any sort, bucket size, bucket count, record stream) or in batches
+   (any batch size, stream, batch order), with v1 or v2 keys; CDB from any record stream - served by the
+   matching reader to a client located in L answers every wire-valid query as Spec/Answer.spec_response
+   prescribes for the records the file DECLARES.  Guards besides wf_file: values shorter than 2^32 (C07),
+   the accumulator / feature records under foreign keys, wf_view (a visible SOA comes with a visible NS),
+   no OPT or EDNS version 0, and for v1 keys [loc_okb L]. *)
+Theorem C01_file_level_rdb_v1 : forall o serial nornet accum feature f,
+  wf_file o serial f = true -> side_ok accum feature f ->
+  forall db st L,
+  feature <> [] -> kvs_ok (records bytes (conv_line o serial nornet false) accum feature f) ->
+  rdb_compilation bytes (conv_line o serial nornet false) accum feature f db -> rdb_dump db st ->
+  loc_okb L = true -> wf_view L (declared_file o serial f) = true ->
+  forall q n ecs max x, wf_name n -> nlen (pack n) <= 255 -> lower_bytes (q_name q) = pack n ->
+  (q_edns q = None \/ q_edns q = Some 0) ->
+  serve RDB1 st q (LocOk L) ecs max = OReply x -> response_refines L (declared_file o serial f) n q ecs max x.
+Proof. exact file_level_rdb_v1. Qed.
+Print Assumptions C01_file_level_rdb_v1.
+
+Theorem C01_file_level_rdb_v2 : forall o serial nornet accum feature f,
+  wf_file o serial f = true -> side_ok accum feature f ->
+  forall db st L,
+  feature <> [] -> kvs_ok (records bytes (conv_line o serial nornet true) accum feature f) ->
+  rdb_compilation bytes (conv_line o serial nornet true) accum feature f db -> rdb_dump db st ->
+  length L = 2%nat -> wf_view L (declared_file o serial f) = true ->
+  forall q n ecs max x, wf_name n -> nlen (pack n) <= 255 -> lower_bytes (q_name q) = pack n ->
+  (q_edns q = None \/ q_edns q = Some 0) ->
+  serve RDB2 st q (LocOk L) ecs max = OReply x -> response_refines L (declared_file o serial f) n q ecs max x.
+Proof. exact file_level_rdb_v2. Qed.
+Print Assumptions C01_file_level_rdb_v2.
+
+(* CDB: [st] is any store giving, for a key, its values in the order of the Put sequence (C16);
+   Proofs/Compile.store_of of the sequence is one (C01_store_of_rows) *)
+Theorem C01_file_level_cdb : forall o serial nornet accum feature f,
+  wf_file o serial f = true -> side_ok accum feature f ->
+  forall stream kvs st L,
+  Permutation stream (records bytes (conv_line o serial nornet false) accum feature f) ->
+  compile_cdb bytes (conv_line o serial nornet false) f stream = Ok kvs ->
+  (forall k, get st k = vals_of k kvs) ->
+  loc_okb L = true -> wf_view L (declared_file o serial f) = true ->
+  forall q n ecs max x, wf_name n -> nlen (pack n) <= 255 -> lower_bytes (q_name q) = pack n ->
+  (q_edns q = None \/ q_edns q = Some 0) ->
+  serve CDB st q (LocOk L) ecs max = OReply x -> response_refines L (declared_file o serial f) n q ecs max x.
+Proof. exact file_level_cdb. Qed.
+Print Assumptions C01_file_level_cdb.
+Theorem C01_store_of_rows : forall kvs k, get (store_of kvs) k = vals_of k kvs.
+Proof. exact store_of_rows. Qed.
+Print Assumptions C01_store_of_rows.
+
+(* the three backends in one statement *)
+Theorem C01_file_level : forall o serial nornet accum feature1 feature2 f L,
+  wf_file o serial f = true -> side_ok accum feature1 f -> side_ok accum feature2 f ->
+  feature1 <> [] -> feature2 <> [] ->
+  kvs_ok (records bytes (conv_line o serial nornet false) accum feature1 f) ->
+  kvs_ok (records bytes (conv_line o serial nornet true) accum feature2 f) ->
+  loc_okb L = true -> wf_view L (declared_file o serial f) = true ->
+  forall q n ecs max x, wf_name n -> nlen (pack n) <= 255 -> lower_bytes (q_name q) = pack n ->
+  (q_edns q = None \/ q_edns q = Some 0) ->
+  (forall stream kvs st, Permutation stream (records bytes (conv_line o serial nornet false) accum feature1 f) ->
+     compile_cdb bytes (conv_line o serial nornet false) f stream = Ok kvs -> (forall k, get st k = vals_of k kvs) ->
+     serve CDB st q (LocOk L) ecs max = OReply x -> response_refines L (declared_file o serial f) n q ecs max x) /\
+  (forall db st, rdb_compilation bytes (conv_line o serial nornet false) accum feature1 f db -> rdb_dump db st ->
+     serve RDB1 st q (LocOk L) ecs max = OReply x -> response_refines L (declared_file o serial f) n q ecs max x) /\
+  (forall db st, rdb_compilation bytes (conv_line o serial nornet true) accum feature2 f db -> rdb_dump db st ->
+     serve RDB2 st q (LocOk L) ecs max = OReply x -> response_refines L (declared_file o serial f) n q ecs max x).
+Proof.
+  intros o serial nornet accum feature1 feature2 f L WF S1 S2 N1 N2 K1 K2 HL V q n ecs max x Hn Hl Hq He.
+  split; [|split].
+  - intros stream kvs st P C G Hs. exact (file_level_cdb o serial nornet accum feature1 f WF S1 stream kvs st L P C G HL V q n ecs max x Hn Hl Hq He Hs).
+  - intros db st C D Hs. exact (file_level_rdb_v1 o serial nornet accum feature1 f WF S1 db st L N1 K1 C D HL V q n ecs max x Hn Hl Hq He Hs).
+  - intros db st C D Hs. exact (file_level_rdb_v2 o serial nornet accum feature2 f WF S2 db st L N2 K2 C D (loc_okb_len L HL) V q n ecs max x Hn Hl Hq He Hs).
+Qed.
+Print Assumptions C01_file_level.
+
+(* the hypotheses hold and the statement is not vacuous: a six-line file (zone Z + &, a located +, a
+   wildcard ', a % subnet and an M map), compiled by the builder with v2 keys into 9 keys (3 name keys,
+   6 foreign ones) and served by the closest-key reader, and as a reversed CDB stream served by the
+   label-by-label reader: TXT Foo.example.com gets the wildcard's text, A www.example.com from location
+   ab the located address; for every query the reply refines spec_response of the 5 declared records *)
+Example C01_file_level_example :
+  wf_file x_o 7 x_file = true /\
+  side_ok x_accum [Model.Preproc.feature_kv true] x_file /\ side_ok x_accum [Model.Preproc.feature_kv false] x_file /\
+  kvs_ok (records bytes (conv_line x_o 7 false true) x_accum [Model.Preproc.feature_kv true] x_file) /\
+  loc_okb x_L = true /\ wf_view x_L (declared_file x_o 7 x_file) = true /\
+  wf_name x_n1 /\ lower_bytes (q_name x_q1) = pack x_n1 /\ wf_name x_n2 /\ lower_bytes (q_name x_q2) = pack x_n2 /\
+  declared_file x_o 7 x_file = x_recs /\
+  spec_response x_L x_recs x_n1 16 = Answer [x_example; x_com] false [nth 4 x_recs (mkRec [] false None 0 0 0 [])] [nth 0 x_recs (mkRec [] false None 0 0 0 [])] /\
+  spec_response x_L x_recs x_n2 1 = Answer [x_example; x_com] false [nth 3 x_recs (mkRec [] false None 0 0 0 [])] [nth 0 x_recs (mkRec [] false None 0 0 0 [])] /\
+  (exists db st,
+     compile_builder bytes (conv_line x_o 7 false true) kv_isort 1 2 x_file
+       (records bytes (conv_line x_o 7 false true) x_accum [Model.Preproc.feature_kv true] x_file) = Ok db /\
+     rdb_dump db st /\ (length st = 9)%nat /\
+     serve RDB2 st x_q1 (LocOk x_L) None 1 =
+       OReply (mkResp 1 (Some (q_name x_q1, 16, 1)) 0 true
+                 [IRR (mkRR (q_name x_q1) 16 1 120 [5; 104; 101; 108; 108; 111])] [] [] None) /\
+     serve RDB2 st x_q2 (LocOk x_L) None 1 =
+       OReply (mkResp 2 (Some (q_name x_q2, 1, 1)) 0 true
+                 [IPick (q_name x_q2) 1 1 [(300, 1, [10; 0; 0; 2])] 1] [] [] None) /\
+     forall q n ecs max x, wf_name n -> nlen (pack n) <= 255 -> lower_bytes (q_name q) = pack n ->
+       (q_edns q = None \/ q_edns q = Some 0) -> serve RDB2 st q (LocOk x_L) ecs max = OReply x ->
+       response_refines x_L x_recs n q ecs max x) /\
+  (let stream := rev (records bytes (conv_line x_o 7 false false) x_accum [Model.Preproc.feature_kv false] x_file) in
+   compile_cdb bytes (conv_line x_o 7 false false) x_file stream = Ok stream /\
+   serve CDB (store_of stream) x_q1 (LocOk x_L) None 1 =
+     OReply (mkResp 1 (Some (q_name x_q1, 16, 1)) 0 true
+               [IRR (mkRR (q_name x_q1) 16 1 120 [5; 104; 101; 108; 108; 111])] [] [] None) /\
+   forall q n ecs max x, wf_name n -> nlen (pack n) <= 255 -> lower_bytes (q_name q) = pack n ->
+     (q_edns q = None \/ q_edns q = Some 0) -> serve CDB (store_of stream) q (LocOk x_L) ecs max = OReply x ->
+     response_refines x_L x_recs n q ecs max x).
+Proof. exact file_level_example. Qed.
+Print Assumptions C01_file_level_example.
+
+(* What remains outside these theorems (stated, not hidden).
+   * [parse_line] / [convert] are C09's MODEL of Codec.DecodeLn / MarshalMap and [compile_builder] /
+     [compile_batches] / [compile_cdb] C07's model of the compilers; their tie to the Go code is the
+     correspondence run of C09 / C07 (and, for the dumps, Run/Core.v compile_ok), not a theorem.
+   * [accum] and [feature] are parameters constrained by [side_ok] only: that Codec.Acc.MarshalMap emits
+     nothing but prefix-set and range-point records is read off data.go:603-740 and is what C03 x C07
+     (Proofs/LinkRdbDb.v) assume of it; Features.MarshalMap is the single \000o_features record
+     (Model/Preproc.feature_kv, used in the example).
+   * [rdb_dump db st] / [get st k = vals_of k kvs] : that an iterator over the real RocksDB / lookups in the
+     real CDB file yield this store is C15 / C16 (ReadNextChunk loop; FindStart / FindNext order).
+   * the client location L is an input ([LocOk L]; C03 owns FindLocation); for v1 keys L must not be one of
+     the seven two-byte markers ([loc_okb]) - \000% is a real collision (see Proofs/FileLevel.v), the other
+     six are excluded for the simplicity of the proof.
+   * inherited from C01_response_is_spec: DS at or below a delegation, order inside sections, the weighted
+     draw (C11), completeness of the additional section of authoritative answers. *)
+
+(* the side records of the modelled codec satisfy [side_ok]: an accumulator that marshals records of the
+   unserved line types (Model/Preproc.compile hands the Rearranger's range points to convert) together
+   with the features record of Model/Preproc *)
+Theorem C01_side_ok_unserved : forall v2 nornet' (pts : list bytes -> list Model.Text.record) f,
+  Forall (fun r => served r = false) (pts f) ->
+  side_ok (fun f => flat_map (Model.Text.convert v2 nornet') (pts f)) [Model.Preproc.feature_kv v2] f.
+Proof. exact side_ok_unserved. Qed.
+Print Assumptions C01_side_ok_unserved.
+
+(* [loc_okb] is needed for v1 keys: the short key of the subnet line %ab,0.0.0.0/8,\001x is
+   \000% ++ the packed name x. - for a client located in \000% the label-by-label reader would read the
+   subnet's value as a row of the name x *)
+Theorem C01_loc_guard_needed :
+  let r := Model.Text.RNet [97; 98] (Model.Text.v4pre ++ [0; 0; 0; 0]) 104 [1; 120] in
+  In ([0; 37] ++ pack [[120]], [97; 98]) (Model.Text.convert false false r) /\
+  pname (pack [[120]]) /\ loc_okb [0; 37] = false.
+Proof. exact loc_guard_needed. Qed.
+Print Assumptions C01_loc_guard_needed.
